@@ -16,8 +16,9 @@ def classify(line):
 CFG = dict(
     imports=["From Verif.Common Require Import Prefix.", "From Verif.C39 Require Import Model Spec.", "Open Scope N_scope."],
     checker="check_case",
-    n=dict(quick=240, thorough=12000),
-    shard=40,
+    n=dict(quick=200, thorough=8000),
+    shard=25,
+    deps=["C36"],
     classify=classify,
     rule="the REAL IPPoolController.reconcile() driven synchronously over a fake clientset and hand-fed informer indexers; "
          "streams: config (2-7 pools in an arbitrary state: any Allocatable condition, disabled, terminating, finalizers; 0-3 blocks; "
